@@ -72,12 +72,27 @@ def gen_c13(tier, rng):
             strs = [text(rng, n), text(rng, rng.randrange(0, 6)), text(rng, (n * 7) % 13), text(rng, rng.randrange(0, 41))]
             v = proto.rand_bytes(rng, rng.choice([0, 1, 2, 3, n]))
             ops.append("bld cm %s %s" % (prior, " ".join(proto.hexs(x) for x in strs + [v])))
+            # vendor data is BINARY: trailing / leading / only zero bytes are data like any other (an accessor that shares the strings'
+            # NUL stripping shortens them), and lengths whose low byte is >= 0x80 (a length prefix assembled through `char`)
+            if n in (0, 1, 2, 3, 5, 8, 40, 255):
+                for v2 in (bytes(n + 1), proto.rand_bytes(rng, n) + b"\0", proto.rand_bytes(rng, n) + b"\0\0\0", b"\0" + proto.rand_bytes(rng, n),
+                           proto.rand_bytes(rng, 128 + n), proto.rand_bytes(rng, 383 + n)):
+                    ops.append("bld cm %s %s" % (prior, " ".join(proto.hexs(x) for x in strs + [v2])))
+            if n in (3, 4):
+                for ln in (127, 128, 129, 254, 255, 383, 384):
+                    strs2 = list(strs)
+                    strs2[n % 4] = text(rng, ln)
+                    ops.append("bld cm %s %s" % (prior, " ".join(proto.hexs(x) for x in strs2 + [v])))
         cases.append(Case("c13", ops, True, ("cm", "strings"), meta={"kind": "cm"}))
     for prior in prior_objects(rng, "if"):
         ops = []
-        for n in list(range(0, 20)) + [255, 256, 1001]:
+        for n in list(range(0, 20)) + [127, 128, 129, 255, 256, 1001]:
             for vn in (0, 1, 2, 7):
                 ops.append("bld if %s %s %s" % (prior, proto.hexs(proto.rand_bytes(rng, n)), proto.hexs(proto.rand_bytes(rng, vn))))
+            if n in (0, 1, 2, 3, 128, 129):
+                for v2 in (bytes(3), proto.rand_bytes(rng, 2) + b"\0", b"\0" + proto.rand_bytes(rng, 2), proto.rand_bytes(rng, 128), proto.rand_bytes(rng, 255)):
+                    ops.append("bld if %s %s %s" % (prior, proto.hexs(proto.rand_bytes(rng, n)), proto.hexs(v2)))
+                ops.append("bld if %s %s %s" % (prior, proto.hexs(bytes(n)), proto.hexs(proto.rand_bytes(rng, 4))))
         cases.append(Case("c13", ops, True, ("if", "lists"), meta={"kind": "if"}))
     # the largest list the API type admits (uint16 count)
     cases.append(Case("c13", ["bld if default %s 616263" % ("11" * 65535), "bld if default %s 616263" % ("22" * 65534)], True, ("if", "max-count"),
